@@ -81,7 +81,7 @@ func runC20(c *core.Ctx) error {
 		return err
 	}
 	r1 := c.NewRule("R20.1", "S1", "who may mutate the filesystem before the IR exists / outside the write stage", 6)
-	r2 := c.NewRule("R20.2", "S1", "target-dir calls dominated by success of Parse+NewGenerator; generate dominated by config/flags success; cleanDir by clean==true", 6)
+	r2 := c.NewRule("R20.2", "S1", "target-dir calls dominated by success of Parse+NewGenerator; generate dominated by config/flags success; cleanDir by clean==true", 5)
 	r3 := c.NewRule("R20.3", "S1", "clean predicate guards every destructive call; argument is the tested entry of the target dir; own file names satisfy predicate", 8)
 	r4 := c.NewRule("R20.4", "S1", "failure edges return non-nil errors and main exits non-zero", 8)
 
@@ -475,13 +475,13 @@ func derivesFromParam(v ssa.Value, p *ssa.Parameter, seen map[ssa.Value]bool) bo
 	return false
 }
 
-// unreachableAssuming does a forward search from the function entry, and at
-// every If whose condition is decided by assume() follows only the decided
-// edge. It reports whether target is unreachable.
-func unreachableAssuming(fn *ssa.Function, target *ssa.BasicBlock, assume func(cond ssa.Value) (val, known bool)) bool {
+// reachAssuming does a forward search from the function entry; at every If
+// whose condition is decided by assume() it follows only the decided edge. It
+// returns the reachable blocks and the feasible edges.
+func reachAssuming(fn *ssa.Function, assume func(cond ssa.Value) (val, known bool)) (map[*ssa.BasicBlock]bool, map[[2]*ssa.BasicBlock]bool) {
 	seen := map[*ssa.BasicBlock]bool{}
-	var stack []*ssa.BasicBlock
-	stack = append(stack, fn.Blocks[0])
+	edges := map[[2]*ssa.BasicBlock]bool{}
+	stack := []*ssa.BasicBlock{fn.Blocks[0]}
 	for len(stack) > 0 {
 		b := stack[len(stack)-1]
 		stack = stack[:len(stack)-1]
@@ -489,22 +489,54 @@ func unreachableAssuming(fn *ssa.Function, target *ssa.BasicBlock, assume func(c
 			continue
 		}
 		seen[b] = true
-		if b == target {
-			return false
-		}
+		succs := b.Succs
 		if len(b.Instrs) > 0 {
 			if iff, ok := b.Instrs[len(b.Instrs)-1].(*ssa.If); ok {
 				if val, known := evalCond(iff.Cond, assume); known {
 					if val {
-						stack = append(stack, b.Succs[0])
+						succs = b.Succs[:1]
 					} else {
-						stack = append(stack, b.Succs[1])
+						succs = b.Succs[1:2]
 					}
-					continue
 				}
 			}
 		}
-		stack = append(stack, b.Succs...)
+		for _, s := range succs {
+			edges[[2]*ssa.BasicBlock{b, s}] = true
+			stack = append(stack, s)
+		}
+	}
+	return seen, edges
+}
+
+// unreachableAssuming reports whether target is unreachable under assume.
+func unreachableAssuming(fn *ssa.Function, target *ssa.BasicBlock, assume func(cond ssa.Value) (val, known bool)) bool {
+	seen, _ := reachAssuming(fn, assume)
+	return !seen[target]
+}
+
+// knownFalseAssuming: v is false on every feasible path under assume (looks
+// through phi nodes of short-circuit expressions).
+func knownFalseAssuming(fn *ssa.Function, v ssa.Value, assume func(cond ssa.Value) (val, known bool), depth int) bool {
+	if isConstBool(v, false) {
+		return true
+	}
+	if val, known := evalCond(v, assume); known {
+		return !val
+	}
+	phi, ok := v.(*ssa.Phi)
+	if !ok || depth > 4 {
+		return false
+	}
+	seen, edges := reachAssuming(fn, assume)
+	for i, e := range phi.Edges {
+		pred := phi.Block().Preds[i]
+		if !seen[pred] || !edges[[2]*ssa.BasicBlock{pred, phi.Block()}] {
+			continue
+		}
+		if !knownFalseAssuming(fn, e, assume, depth+1) {
+			return false
+		}
 	}
 	return true
 }
@@ -583,81 +615,34 @@ func checkDestructive(c *core.Ctx, prog *core.Prog, r *core.Rule, res *rta.Resul
 				fn       string
 				approved map[string]bool
 			}{{"HasSuffix", approvedSuffix}, {"HasPrefix", approvedPrefix}} {
-				nApproved := 0
-				un := unreachableAssuming(fn, blk, func(cond ssa.Value) (bool, bool) {
-					call, ok := cond.(*ssa.Call)
-					if !ok || !core.IsCallTo(call.Common(), "strings", fam.fn) {
-						return false, false
-					}
-					if call.Common().Args[0] != ssa.Value(nameCall) {
-						return false, false
-					}
-					cs, ok := core.ConstString(call.Common().Args[1])
-					if !ok || !fam.approved[cs] {
-						return false, false
-					}
-					nApproved++
-					return false, true
-				})
+				un := unreachableAssuming(fn, blk, famAssume(nameCall, fam.fn, fam.approved, 0))
 				if un {
 					r.Pass(fmt.Sprintf("%s: unreachable unless strings.%s(name, c) holds for some c in %v", key, fam.fn, keys(fam.approved)))
 				} else {
 					r.Fail(key+":"+strings.ToLower(fam.fn), pos, fmt.Sprintf("os.Remove is reachable for a name for which no strings.%s(name, c), c in %v, holds — files outside the generator's own naming pattern can be removed", fam.fn, keys(fam.approved)))
 				}
 			}
-			// entry is an element of the slice parameter; callers pass ReadDir(dir) of the same dir, guarded by clean
+			// entry is an element of the slice parameter; up the call chain the slice is os.ReadDir(dir) of the
+			// same dir, dir is the -target flag, and the call is guarded by the -clean flag
 			filesP := rangeSource(entry)
 			if filesP == nil {
 				r.Undecided(key+":entries", pos, "cannot trace the tested entry back to a slice parameter")
 				continue
 			}
-			for _, caller := range callersOf(prog, fn) {
-				cargs := caller.Common().Args
-				cpos := c.Pos(caller.Pos())
-				var dirArg, filesArg ssa.Value
-				for i, p := range fn.Params {
-					if p == dirP {
-						dirArg = cargs[i]
-					}
-					if p == filesP {
-						filesArg = cargs[i]
-					}
-				}
-				rd := readDirOf(filesArg)
-				if rd == nil {
-					r.Fail(key+":caller-entries", cpos, "entries passed to "+fn.Name()+" are not the result of os.ReadDir")
-				} else if rd.Common().Args[0] != dirArg {
-					r.Fail(key+":caller-dir", cpos, "entries come from os.ReadDir of a different directory than the one files are removed from")
-				} else {
-					r.Pass(fmt.Sprintf("%s called at %s with entries of os.ReadDir(dir) and the same dir", fn.Name(), cpos))
-				}
-				// dir is generate's targetDir parameter
-				if caller.Parent() == genFn {
-					if p, ok := dirArg.(*ssa.Parameter); ok && p.Name() == "targetDir" {
-						r.Pass("generate: cleaned directory is the targetDir parameter")
-					} else {
-						r.Fail(key+":caller-target", cpos, "cleaned directory is not generate()'s targetDir parameter")
-					}
-					// guarded by clean == true
-					var cleanP *ssa.Parameter
-					for _, p := range genFn.Params {
-						if p.Name() == "clean" {
-							cleanP = p
-						}
-					}
-					if cleanP == nil {
-						r.Undecided(key+":clean-param", cpos, "generate() has no `clean` parameter")
-					} else if unreachableAssuming(genFn, caller.Block(), func(cond ssa.Value) (bool, bool) {
-						if cond == ssa.Value(cleanP) {
-							return false, true
-						}
-						return false, false
-					}) {
-						r.Pass("generate: cleanDir unreachable when clean is false")
-					} else {
-						r.Fail(key+":clean-flag", cpos, "cleanDir is reachable when --clean was not requested")
-					}
-				}
+			if ok, why := checkEntries(prog, fn, filesP, dirP, 0); ok {
+				r.Pass(fmt.Sprintf("%s: entries are os.ReadDir(dir) of the directory files are removed from (%s)", key, why))
+			} else {
+				r.Fail(key+":caller-entries", pos, "the entries tested are not os.ReadDir of the directory files are removed from: "+why)
+			}
+			if ok, why := traceToFlag(prog, dirP, fn, "String", "target", 0); ok {
+				r.Pass(key + ": cleaned directory is the -target flag (" + why + ")")
+			} else {
+				r.Fail(key+":caller-target", pos, "cleaned directory does not trace back to the -target flag: "+why)
+			}
+			if ok, why := guardedByFlag(prog, fn, blk, "clean", 0); ok {
+				r.Pass(key + ": unreachable unless -clean was given (" + why + ")")
+			} else {
+				r.Fail(key+":clean-flag", pos, "the destructive call is reachable when --clean was not requested: "+why)
 			}
 		}
 	}
@@ -909,4 +894,187 @@ func checkMainExit(c *core.Ctx, r *core.Rule, mainFn, runFn *ssa.Function) {
 	} else {
 		r.Fail("main:exit", c.Pos(runCall.Pos()), "main does not call os.Exit with a non-zero constant on every path after run() returned an error")
 	}
+}
+
+// famAssume builds the assumption "every approved strings.<fam>(name, c) is
+// false"; calls of module helpers taking name are resolved one level deep:
+// the helper is known false if under the same assumption it cannot return
+// anything but the constant false.
+func famAssume(name ssa.Value, fam string, approved map[string]bool, depth int) func(cond ssa.Value) (bool, bool) {
+	return func(cond ssa.Value) (bool, bool) {
+		call, ok := cond.(*ssa.Call)
+		if !ok {
+			return false, false
+		}
+		if core.IsCallTo(call.Common(), "strings", fam) {
+			if call.Common().Args[0] != name {
+				return false, false
+			}
+			cs, ok := core.ConstString(call.Common().Args[1])
+			if !ok || !approved[cs] {
+				return false, false
+			}
+			return false, true
+		}
+		h := call.Common().StaticCallee()
+		if h == nil || !core.InModule(h) || h.Blocks == nil || depth >= 2 {
+			return false, false
+		}
+		if rs := h.Signature.Results(); rs.Len() != 1 || !isBoolT(rs.At(0).Type()) {
+			return false, false
+		}
+		idx := -1
+		for i, a := range call.Common().Args {
+			if a == name {
+				idx = i
+			}
+		}
+		if idx < 0 {
+			return false, false
+		}
+		sub := famAssume(h.Params[idx], fam, approved, depth+1)
+		for _, b := range h.Blocks {
+			ret, ok := b.Instrs[len(b.Instrs)-1].(*ssa.Return)
+			if !ok {
+				continue
+			}
+			if knownFalseAssuming(h, ret.Results[0], sub, 0) {
+				continue
+			}
+			if !unreachableAssuming(h, b, sub) {
+				return false, false
+			}
+		}
+		return false, true
+	}
+}
+
+func isBoolT(t types.Type) bool {
+	b, ok := t.Underlying().(*types.Basic)
+	return ok && b.Kind() == types.Bool
+}
+
+func paramIndex(fn *ssa.Function, p *ssa.Parameter) int {
+	for i, q := range fn.Params {
+		if q == p {
+			return i
+		}
+	}
+	return -1
+}
+
+func isFlagLoad(v ssa.Value, flagFn, name string) bool {
+	ld, ok := v.(*ssa.UnOp)
+	if !ok || ld.Op != token.MUL {
+		return false
+	}
+	call, ok := ld.X.(*ssa.Call)
+	if !ok || !core.IsCallTo(call.Common(), "flag", "FlagSet."+flagFn) {
+		return false
+	}
+	n, _ := core.ConstString(call.Common().Args[1])
+	return n == name
+}
+
+// traceToFlag: v is *set.<flagFn>(name), or a parameter that every caller
+// fills with such a value (recursively).
+func traceToFlag(prog *core.Prog, v ssa.Value, fn *ssa.Function, flagFn, name string, depth int) (bool, string) {
+	if isFlagLoad(v, flagFn, name) {
+		return true, "-" + name + " in " + fn.Name()
+	}
+	p, ok := v.(*ssa.Parameter)
+	if !ok || depth > 4 {
+		return false, fmt.Sprintf("%s in %s is not the -%s flag", v.Name(), fn.Name(), name)
+	}
+	idx := paramIndex(fn, p)
+	callers := callersOf(prog, fn)
+	if idx < 0 || len(callers) == 0 {
+		return false, fn.Name() + " has no static caller"
+	}
+	why := ""
+	for _, cs := range callers {
+		ok, w := traceToFlag(prog, cs.Common().Args[idx], cs.Parent(), flagFn, name, depth+1)
+		if !ok {
+			return false, w
+		}
+		why = fn.Name() + "." + p.Name() + " ← " + w
+	}
+	return true, why
+}
+
+// checkEntries: files is os.ReadDir(x) with x the same value as dir at some
+// level of the call chain.
+func checkEntries(prog *core.Prog, fn *ssa.Function, files, dir ssa.Value, depth int) (bool, string) {
+	if rd := readDirOf(files); rd != nil {
+		if rd.Common().Args[0] == dir {
+			return true, "os.ReadDir in " + fn.Name()
+		}
+		return false, "os.ReadDir lists a different directory in " + fn.Name()
+	}
+	fp, ok1 := files.(*ssa.Parameter)
+	dp, ok2 := dir.(*ssa.Parameter)
+	if !ok1 || !ok2 || depth > 4 {
+		return false, "entries are not the result of os.ReadDir in " + fn.Name()
+	}
+	fi, di := paramIndex(fn, fp), paramIndex(fn, dp)
+	callers := callersOf(prog, fn)
+	if fi < 0 || di < 0 || len(callers) == 0 {
+		return false, fn.Name() + " has no static caller"
+	}
+	why := ""
+	for _, cs := range callers {
+		ok, w := checkEntries(prog, cs.Parent(), cs.Common().Args[fi], cs.Common().Args[di], depth+1)
+		if !ok {
+			return false, w
+		}
+		why = w
+	}
+	return true, why
+}
+
+// guardedByFlag: block is unreachable unless the bool flag is true, looking
+// through bool parameters and up the static call chain.
+func guardedByFlag(prog *core.Prog, fn *ssa.Function, blk *ssa.BasicBlock, name string, depth int) (bool, string) {
+	if depth > 4 {
+		return false, "call chain too deep"
+	}
+	// a flag load in this function
+	if unreachableAssuming(fn, blk, func(cond ssa.Value) (bool, bool) {
+		if isFlagLoad(cond, "Bool", name) {
+			return false, true
+		}
+		return false, false
+	}) {
+		return true, "-" + name + " tested in " + fn.Name()
+	}
+	for _, p := range fn.Params {
+		if !isBoolT(p.Type()) {
+			continue
+		}
+		p := p
+		if !unreachableAssuming(fn, blk, func(cond ssa.Value) (bool, bool) {
+			if cond == ssa.Value(p) {
+				return false, true
+			}
+			return false, false
+		}) {
+			continue
+		}
+		if ok, why := traceToFlag(prog, p, fn, "Bool", name, depth); ok {
+			return true, why
+		}
+	}
+	callers := callersOf(prog, fn)
+	if len(callers) == 0 {
+		return false, fn.Name() + " is not guarded and has no static caller"
+	}
+	why := ""
+	for _, cs := range callers {
+		ok, w := guardedByFlag(prog, cs.Parent(), cs.Block(), name, depth+1)
+		if !ok {
+			return false, w
+		}
+		why = w
+	}
+	return true, why
 }
